@@ -176,7 +176,7 @@ def where(ragged_mask: RaggedArray, x: RaggedArray=None, y: RaggedArray=None) ->
     RaggedArray
     """
     assert (x is not None) and (y is not None), "where is only supported for ifelse for ragged_array"
-    cls = x.__class__
+    cls = ragged_mask.__class__
     if not isinstance(x, Number):
         if ragged_mask.size < x.size:
             ragged_mask = x._broadcast_rows(ragged_mask)  # TODO: this is ugly, clean
